@@ -18,6 +18,46 @@ import torch
 from simkit import core, minimise, repo, runner
 
 
+class _Conditioning(object):
+	"""Observes (on a private clone of the model) whether a forward pass sits on
+	one of the discontinuities of the DeepLIFT rules."""
+
+	def __init__(self):
+		self.reason = None
+
+	def observe(self, model):
+		for m in model.modules():
+			if isinstance(m, torch.nn.MaxPool1d):
+				m.register_forward_pre_hook(self._pool)
+			elif type(m).__module__.startswith("torch.nn.modules.activation"):
+				m.register_forward_pre_hook(self._act)
+
+	def _pool(self, module, inputs):
+		x = inputs[0].detach()
+		k = module.kernel_size if isinstance(module.kernel_size, int) else module.kernel_size[0]
+		st = module.stride if isinstance(module.stride, int) else module.stride[0]
+		if x.shape[-1] < k:
+			return
+		w = x.unfold(-1, k, st)
+		top = torch.topk(w, min(2, k), dim=-1).values
+		if k >= 2:
+			gap = (top[..., 0] - top[..., 1]).abs()
+			if bool((gap <= 1e-9 * top[..., 0].abs().clamp(min=1.0)).any()):
+				self.reason = "near-tie inside a max-pool window"
+		self._delta(x, 1e-7, "max-pool")
+
+	def _act(self, module, inputs):
+		self._delta(inputs[0].detach(), 1e-6, "activation")
+
+	def _delta(self, x, thr, what):
+		if x.shape[0] % 2:
+			return
+		a, b = x.chunk(2)
+		d = (a - b).abs()
+		if bool(((d - thr).abs() < 1e-9).any()):
+			self.reason = "|delta_in| on the %g switch of the %s rule" % (thr, what)
+
+
 class C06(runner.Check):
 	prop_id = "C06"
 	level = "exploration"
@@ -37,12 +77,16 @@ class C06(runner.Check):
 		"bit. Non-trivial: at least one batch straddled two examples or a "
 		"perturbation preceded a call; distinct = distinct event-log digests.")
 	assumptions = [
-		"attributions are compared with a tolerance (float64: rtol 1e-9 of the row "
-		"scale; float32 models: 2e-4) because batching legitimately changes the "
-		"floating-point summation order inside BLAS; returned references are compared "
+		"models are float64 (as in the quantifier's C04 generator); attributions are "
+		"compared with rtol 1e-9 of the row scale because batching legitimately changes "
+		"the floating-point summation order inside BLAS; returned references are compared "
 		"bit for bit",
 		"random_state is always an integer or references an explicit tensor, as the "
 		"statement requires for repeatability",
+		"worlds whose canonical forward passes sit on a discontinuity of the DeepLIFT rules "
+		"(two values of a max-pool window equal to within 1e-9, or |delta_in| within 1e-9 of "
+		"the 1e-6 / 1e-7 rule switch) are skipped and counted: there a last-bit difference "
+		"between batch shapes legitimately moves attribution between tied positions",
 		"a session in which an injected failure breaks the C07 invariants is abandoned "
 		"and counted (aborted_c07_precondition), not reported here: that leak is C07's",
 	]
@@ -72,6 +116,11 @@ class C06(runner.Check):
 		r = S("workload")
 		L = r.randint(8, 40)
 		mspec = mw.gen_spec(r, L=L, allow_custom=False)
+		# float64 only (the C04 generator the quantifier names): in float32 the
+		# rescale rule delta_out/delta_in with |delta_in| ~ 1e-6 is within a factor
+		# 10 of machine epsilon, so batch shape changes results at the 1e-3 level
+		# for reasons that have nothing to do with the batching bookkeeping
+		mspec["dtype"] = "float64"
 		n = r.randint(1, 6)
 		ns = r.randint(1, 6)
 		world = {"n": n, "n_shuffles": ns, "xseed": r.subseed(),
@@ -166,12 +215,16 @@ class C06(runner.Check):
 		# canonical: each example alone, one example per call, batch = n_shuffles
 		canon = {}
 		canon_refs = []
+		cond = _Conditioning()
 		try:
 			for mode in ("processed", "hypothetical", "raw"):
 				rows = []
 				for i in range(n):
 					a_i = None if args is None else tuple(a[i:i + 1] for a in args)
-					res = self._dls(mw.clone_model(pristine), X[i:i + 1], a_i, mode, world,
+					m_i = mw.clone_model(pristine)
+					if mode == "processed":
+						cond.observe(m_i)       # private clone: observation only
+					res = self._dls(m_i, X[i:i + 1], a_i, mode, world,
 						batch_size=ns, return_references=True)
 					rows.append(res[0][0])
 					if mode == "processed":
@@ -179,6 +232,15 @@ class C06(runner.Check):
 				canon[mode] = rows
 		except Exception as e:
 			out.skipped = "canonical run raises %s" % type(e).__name__
+			out.digest = log.digest()
+			return out
+		if cond.reason:
+			# the DeepLIFT rules are discontinuous at exact ties inside a max-pool
+			# window and at the |delta_in| = 1e-6 / 1e-7 switch: there a last-bit
+			# rounding difference between two batch shapes legitimately moves
+			# attribution between positions.  Such worlds are outside what any
+			# floating-point implementation can promise.
+			out.skipped = "ill-conditioned world: " + cond.reason
 			out.digest = log.digest()
 			return out
 		X0 = X.clone()
